@@ -7,6 +7,7 @@ import (
 	"fmt"
 	"io"
 	"math"
+	"reflect"
 	"strings"
 	"time"
 
@@ -61,13 +62,16 @@ type ColSpec struct {
 //	yield      schedule point (engine E2)
 //	return     return Err (nil = success)       retlast   return the last error an op produced
 type Op struct {
-	K    string   `json:"k"`
-	Row  []Val    `json:"row,omitempty"`
-	Tag  string   `json:"tag,omitempty"`
-	Fmt  int16    `json:"fmt,omitempty"`
-	N    int      `json:"n,omitempty"`
-	Err  *ErrSpec `json:"err,omitempty"`
-	OIDs []uint32 `json:"oids,omitempty"`
+	K   string `json:"k"`
+	Row []Val  `json:"row,omitempty"`
+	Tag string `json:"tag,omitempty"`
+	Fmt int16  `json:"fmt,omitempty"`
+	N   int    `json:"n,omitempty"`
+	// Reuse (row): the handler keeps one []any of pointers to its own variables
+	// for consecutive rows, assigns the variables and hands the same slice to Row
+	Reuse bool     `json:"reuse,omitempty"`
+	Err   *ErrSpec `json:"err,omitempty"`
+	OIDs  []uint32 `json:"oids,omitempty"`
 }
 
 // ErrSpec builds an error with the library's decorators applied in Order
@@ -562,12 +566,35 @@ func (rt *Runtime) runStmt(ctx context.Context, key string, idx int, sp *StmtPro
 	}()
 	var cr *wire.CopyReader
 	var last error
+	var reuseSlice []any
+	var reuseVars []reflect.Value
 	for oi, op := range sp.Ops {
 		switch op.K {
 		case "row":
 			vals := make([]any, len(op.Row))
 			for i, v := range op.Row {
 				vals[i] = v.Go()
+			}
+			if op.Reuse {
+				if len(reuseSlice) != len(vals) {
+					reuseSlice = vals
+					reuseVars = make([]reflect.Value, len(vals))
+					for i := range vals {
+						reuseVars[i] = reflect.ValueOf(vals[i])
+					}
+				} else {
+					for i := range vals {
+						nv := reflect.ValueOf(vals[i])
+						if reuseVars[i].IsValid() && nv.IsValid() && reuseVars[i].Kind() == reflect.Ptr && nv.Type() == reuseVars[i].Type() && !nv.IsNil() && !reuseVars[i].IsNil() {
+							// assign the handler's variable; the slice itself is not touched
+							reuseVars[i].Elem().Set(nv.Elem())
+						} else {
+							reuseSlice[i] = vals[i]
+							reuseVars[i] = nv
+						}
+					}
+				}
+				vals = reuseSlice
 			}
 			// (N > 1: the same row N times - long results)
 			for n := 0; n == 0 || n < op.N; n++ {
